@@ -53,6 +53,7 @@ def cmd_run(argv):
                 o = eng.execute(scn)
                 rec.update(o)
                 if o.get('violation'):
+                    scn.update(rec.pop('scenario_patch', None) or {})
                     rec['scenario'] = scn
                     nviol += 1
             except Exception as e:  # harness failure, never a violation, never a pass
